@@ -398,6 +398,22 @@ func (fr *Frame) applyContract(instr ssa.Instruction, bc *BoundContract, sig *ty
 			}
 		}
 	}
+	// protects G: objects marked in G before the call keep their contents, whatever the modifies clauses allow
+	for _, cl := range bc.C.Clauses {
+		if cl.Kind != "protects" {
+			continue
+		}
+		ks := make([]string, 0, len(st.h))
+		for k := range st.h {
+			ks = append(ks, k)
+		}
+		pc, _, err := c.protectCond(cl, st, pre, c.clk(pre), ks)
+		if err != nil {
+			fr.unsupported(instr.Pos(), "protects of %s: %v", bc.Full, err)
+		} else if pc != nil {
+			c.sc.assert(tImp(reach, pc))
+		}
+	}
 	// results
 	var res *Val
 	if bc.C.Pure {
